@@ -144,15 +144,17 @@ bucket_harness!(c12_kbucket_add_on_full_bucket_of_20, 20, |added, known, stale| 
 // =============================================================================================
 
 static mut BADD_CALLS: u32 = 0;
-static mut BADD_BUCKET: usize = 0;
-static mut BADD_NODE: usize = 0;
+// (raw pointers, never cast to integers: a pointer-to-integer cast makes CBMC encode the address
+// of every object numerically — measured > 28 GB for one RoutingTable::add)
+static mut BADD_BUCKET: *const KBucket = core::ptr::null();
+static mut BADD_NODE: *const NodeInner = core::ptr::null();
 static mut BADD_VERDICT: bool = true;
 
 fn stub_bucket_add(b: &mut KBucket, incoming: Node) -> bool {
     unsafe {
         BADD_CALLS += 1;
-        BADD_BUCKET = b as *mut KBucket as usize;
-        BADD_NODE = Arc::as_ptr(&incoming.0) as usize;
+        BADD_BUCKET = b as *const KBucket;
+        BADD_NODE = Arc::as_ptr(&incoming.0);
         core::mem::forget(incoming);
         BADD_VERDICT
     }
@@ -201,7 +203,7 @@ fn table_add_case(b0: u8, b1: u8) -> (bool, bool, u16) {
     }
     let id = idb(b0, b1, 0);
     let node = node_aged(id, addr(kani::any(), 1), 0);
-    let ptr = Arc::as_ptr(&node.0) as usize;
+    let ptr = Arc::as_ptr(&node.0);
     let own = b0 == 0 && b1 == 0;
     let is_a = b0 == 0x80 && b1 == 1;
     let is_b = b0 == 0x40 && b1 == 1;
@@ -218,8 +220,8 @@ fn table_add_case(b0: u8, b1: u8) -> (bool, bool, u16) {
     } else {
         assert!(calls == 1 && r == verdict, "C12: otherwise the decision is the bucket's");
         assert!(unsafe { BADD_NODE } == ptr, "the node handed to the bucket is the incoming one");
-        let bucket_addr = t.buckets.get(&d).map(|b| b as *const KBucket as usize);
-        assert!(bucket_addr == Some(unsafe { BADD_BUCKET }), "C12: every entry goes to the bucket matching its distance to the table's id");
+        let bucket_addr: *const KBucket = match t.buckets.get(&d) { Some(b) => b as *const KBucket, None => core::ptr::null() };
+        assert!(!bucket_addr.is_null() && bucket_addr == unsafe { BADD_BUCKET }, "C12: every entry goes to the bucket matching its distance to the table's id");
     }
     core::mem::forget(t);
     (own, clash, clash_port)
